@@ -5,6 +5,10 @@
  *
  *   tcp <csm-max|0> <stream-hex> <cut,cut,...|->      cut = offset into the stream where a new chunk starts
  *   ws  <c|s> <stream-hex> <cut,cut,...|->            c: we are the client (frames unmasked), s: we are the server
+ *   wsclose <c|s> <stream-hex> <cut>                  stream[0..cut) is received in one chunk; then, with stream[cut..)
+ *                                                     available on the socket, the application closes the session:
+ *                                                     coap_ws_close() sends its Close frame and drains the socket for the
+ *                                                     peer's.  Output: n=.. drain rc=<recv_close> left=<bytes not read>
  *   consts                                            the constants the model depends on
  *
  * A "chunk" is what the transport has available when the read event fires.  coap_read_session() is
@@ -201,6 +205,7 @@ static int parse_cuts(char *w, size_t total, size_t *cuts, int max) {
 }
 
 #define MAX_CUTS 1000000
+static int g_close_after_first;   /* wsclose: 1 = only the first chunk is fed, then coap_ws_close() with the rest available */
 
 static void run_stream(coap_proto_t proto, int server_side, unsigned long csm_max, const uint8_t *stream, size_t len,
                        const size_t *cuts, int ncuts) {
@@ -239,7 +244,7 @@ static void run_stream(coap_proto_t proto, int server_side, unsigned long csm_ma
   coap_lock_unlock(g_ctx);
   g_nev = 0; g_nack = -1; g_closed = 0;
 
-  for (int k = 0; k <= ncuts && !g_closed && !stuck; k++) {
+  for (int k = 0; k <= (g_close_after_first ? 0 : ncuts) && !g_closed && !stuck; k++) {
     size_t a = k == 0 ? 0 : cuts[k - 1], b = k == ncuts ? len : cuts[k];
     g_chunk = stream + a; g_chunk_left = b - a;
     fd_set_readable(g_chunk_left > 0);
@@ -255,6 +260,24 @@ static void run_stream(coap_proto_t proto, int server_side, unsigned long csm_ma
     if (s->state == COAP_SESSION_STATE_NONE) g_closed = 1;
   }
   if (s->state == COAP_SESSION_STATE_NONE || !(s->sock.flags & COAP_SOCKET_CONNECTED)) g_closed = 1;
+
+  if (g_close_after_first) {
+    if (g_closed || stuck || !s->ws || !s->ws->up) {
+      printf("n=%d%s noclose", g_npdu, g_out);
+    } else {
+      size_t a = ncuts ? cuts[0] : len;
+      g_chunk = stream + a; g_chunk_left = len - a;
+      fd_set_readable(g_chunk_left > 0);
+      coap_lock_lock(g_ctx, return);
+      coap_ws_close(s);
+      coap_lock_unlock(g_ctx);
+      scribble_stack();
+      printf("n=%d%s drain rc=%d left=%lu", g_npdu, g_out, s->ws ? (int)s->ws->recv_close : -1, (unsigned long)g_chunk_left);
+    }
+    coap_session_release(s);
+    drain_accept();
+    return;
+  }
 
   /* WS: events / nack reason are reported after " # " (informational: BAD_PACKET notifications and what
    * coap_ws_close's socket draining raises are not part of the property); TCP: part of the observation */
@@ -298,6 +321,11 @@ static void step_inner(char *line) {
            (unsigned long)COAP_RXBUFFER_SIZE, (unsigned long)sizeof(((coap_session_t *)0)->read_header),
            (unsigned long)COAP_MAX_FS, (unsigned long)sizeof(((coap_ws_state_t *)0)->http_hdr));
     return;
+  }
+  g_close_after_first = n == 4 && !strcmp(w[0], "wsclose");
+  if (g_close_after_first) {
+    if (strchr(w[3], ',') || !strcmp(w[3], "-")) { printf("bad-op"); return; }
+    w[0] = (char *)"ws";
   }
   if (n == 4 && (!strcmp(w[0], "tcp") || !strcmp(w[0], "ws"))) {
     size_t len; uint8_t *b = h_unhex(w[2], &len);
